@@ -54,7 +54,7 @@ Features == <<"values", "put", "var", "set", "list", "map", "indexing", "arith",
               "if", "while", "for", "fn", "lambda", "closure", "return",
               "fail", "try", "break", "continue", "and", "or", "coalesce", "exception-capture",
               "rest-args", "options", "pipelines", "range", "each", "all", "take", "drop", "count",
-              "one", "compact", "order", "keep-if", "del", "exception-fields", "tmp", "with", "defer", "byte-output", "use", "qualified-names", "keys", "order-less-than", "str-module">>
+              "one", "compact", "order", "keep-if", "del", "exception-fields", "tmp", "with", "defer", "byte-output", "use", "qualified-names", "keys", "order-less-than", "str-module", "rationals">>
 
 \* ---------------------------------------------------------------- results
 Res(st, env, vs, out, exc) == [st |-> st, env |-> env, vs |-> vs, out |-> out, exc |-> exc]
@@ -601,7 +601,7 @@ CallBuiltin(st, env, name, args, opts) ==
          [] name = "range" ->
               IF ~OptNamesOK(opts, {"step"}) THEN Throw(st, env, CBadOpt)
               ELSE LET ns == NumArgs(args \o (IF opts = <<>> THEN <<>> ELSE <<OptVal(opts, "step", VNil)>>)) IN
-                   IF AnyUnk(ns) THEN Throw(st, env, COOM)
+                   IF AnyUnk(ns) \/ AnyRat(ns) THEN Throw(st, env, OOM("range over numbers outside the model"))
                    ELSE IF AnyNotNum(ns) THEN Throw(st, env, CType)      \* arguments are converted first,
                    ELSE IF Len(args) < 1 \/ Len(args) > 2 THEN Throw(st, env, CArity)   \* then counted
                    ELSE LET start == IF Len(args) = 1 THEN 0 ELSE ns[1].n
